@@ -88,7 +88,7 @@ def expand(item, seed):
             for n in LEN_CLASSES:
                 fr = _probe_frame(b0, n)
                 for api in ("recv_data_frame_ctrl", "recv", "recv_frame"):
-                    if api == "recv_frame" and (item["state"] != "idle" or _msg_level_only(fr)):
+                    if api == "recv_frame" and item["state"] != "idle":
                         continue
                     yield {"frames": PREFIX[item["state"]] + [fr], "api": api, "state": item["state"], "seed": 1}
     elif k in ("codes", "codes_dense"):
@@ -183,11 +183,6 @@ def run(sc, choices=None):
     for f in frames:
         if f.masked or not f.minimal():
             raise InvalidScenario("masked / non-minimal server frames are not demanded either way")
-    if api == "recv_frame":
-        # per-frame rules only; leave out what the property places at message level
-        for f in frames:
-            if f.opcode in (8, 9, 10) and not f.rsv and (not f.fin or (len(f.payload) > 125 and f.opcode != 8)):
-                raise InvalidScenario("fragmented / oversized control frame through recv_frame")
     if sc.get("prior"):
         cfg["prior"] = dict(sc["prior"])  # the object was used before: an earlier connection was lost mid-frame / mid-message
     out = run_recv(int(sc.get("seed", 1)), stream, cfg, res)
